@@ -7,6 +7,8 @@ import (
 	"context"
 	"errors"
 	"fmt"
+	"sort"
+	"strings"
 	"sync"
 	"time"
 
@@ -528,4 +530,138 @@ func (c *Connector) Reopen() {
 
 	c.updateCh = make(chan imap.Update)
 	c.closed = false
+}
+
+// MsgInfo is a snapshot of a remote message.
+type MsgInfo struct {
+	ID        imap.MessageID
+	Literal   []byte
+	Flags     imap.FlagSet
+	Date      time.Time
+	Mailboxes []imap.MailboxID
+}
+
+// FindMessage returns the first remote message whose literal contains needle.
+func (c *Connector) FindMessage(needle string) (MsgInfo, bool) {
+	c.mu.Lock()
+	defer c.mu.Unlock()
+
+	for _, m := range c.Messages {
+		if strings.Contains(string(m.Literal), needle) {
+			return c.info(m), true
+		}
+	}
+
+	return MsgInfo{}, false
+}
+
+// Message returns the remote message with the given id.
+func (c *Connector) Message(id imap.MessageID) (MsgInfo, bool) {
+	c.mu.Lock()
+	defer c.mu.Unlock()
+
+	m, ok := c.Messages[id]
+	if !ok {
+		return MsgInfo{}, false
+	}
+
+	return c.info(m), true
+}
+
+func (c *Connector) info(m *Msg) MsgInfo {
+	mi := MsgInfo{ID: m.ID, Literal: append([]byte{}, m.Literal...), Flags: m.Flags.Clone(), Date: m.Date}
+	for id := range m.Mailboxes {
+		mi.Mailboxes = append(mi.Mailboxes, id)
+	}
+
+	sort.Slice(mi.Mailboxes, func(i, j int) bool { return mi.Mailboxes[i] < mi.Mailboxes[j] })
+
+	return mi
+}
+
+// MailboxID returns the remote id of the mailbox with the given name path.
+func (c *Connector) MailboxID(name ...string) (imap.MailboxID, bool) {
+	c.mu.Lock()
+	defer c.mu.Unlock()
+
+	for _, mb := range c.Mailboxes {
+		if strings.Join(mb.Name, "\x00") == strings.Join(name, "\x00") {
+			return mb.ID, true
+		}
+	}
+
+	return "", false
+}
+
+// MailboxNames returns all remote mailboxes (id -> name path).
+func (c *Connector) MailboxNames() map[imap.MailboxID][]string {
+	c.mu.Lock()
+	defer c.mu.Unlock()
+
+	out := map[imap.MailboxID][]string{}
+	for id, mb := range c.Mailboxes {
+		out[id] = append([]string{}, mb.Name...)
+	}
+
+	return out
+}
+
+// RemoteAddMessage registers a message on the remote (as if it arrived there) and returns
+// the MessageCreated description for a MessagesCreated update.
+func (c *Connector) RemoteAddMessage(literal []byte, flags imap.FlagSet, date time.Time, mailboxes ...imap.MailboxID) (*imap.MessageCreated, error) {
+	parsed, err := imap.NewParsedMessage(literal)
+	if err != nil {
+		return nil, err
+	}
+
+	c.mu.Lock()
+	defer c.mu.Unlock()
+
+	c.nextMsg++
+	id := imap.MessageID(fmt.Sprintf("%smsg%d", c.IDPrefix, c.nextMsg))
+	m := &Msg{ID: id, Literal: append([]byte{}, literal...), Flags: flags.Clone(), Date: date, Mailboxes: map[imap.MailboxID]bool{}}
+
+	for _, mb := range mailboxes {
+		m.Mailboxes[mb] = true
+	}
+
+	c.Messages[id] = m
+
+	return &imap.MessageCreated{
+		Message:       imap.Message{ID: id, Flags: flags.Clone(), Date: date},
+		Literal:       append([]byte{}, literal...),
+		MailboxIDs:    append([]imap.MailboxID{}, mailboxes...),
+		ParsedMessage: parsed,
+	}, nil
+}
+
+// RemoteSetMailboxes changes the remote's idea of where a message lives.
+func (c *Connector) RemoteSetMailboxes(id imap.MessageID, mailboxes []imap.MailboxID) {
+	c.mu.Lock()
+	defer c.mu.Unlock()
+
+	if m, ok := c.Messages[id]; ok {
+		m.Mailboxes = map[imap.MailboxID]bool{}
+		for _, mb := range mailboxes {
+			m.Mailboxes[mb] = true
+		}
+	}
+}
+
+// RemoteSetFlags changes the remote's idea of a message's flags.
+func (c *Connector) RemoteSetFlags(id imap.MessageID, flags imap.FlagSet) {
+	c.mu.Lock()
+	defer c.mu.Unlock()
+
+	if m, ok := c.Messages[id]; ok {
+		m.Flags = flags.Clone()
+	}
+}
+
+// RemoteDeleteMessage forgets a message on the remote.
+func (c *Connector) RemoteDeleteMessage(id imap.MessageID) {
+	c.mu.Lock()
+	defer c.mu.Unlock()
+
+	delete(c.Messages, id)
 }
